@@ -471,6 +471,7 @@ def run(spec, out):
                   and unicodedata.normalize("NFC", x) != x or unicodedata.normalize("NFKC", x) != x]
     rng.shuffle(lookalikes)
     steps = spec.get("steps", 60)
+    my_dims = []
     for step in range(steps):
         if other_schema and other_schema["when"] == "mid-history" and step == steps // 3:
             load_other_schema("mid-history")
@@ -549,6 +550,33 @@ def run(spec, out):
             n = fresh("zqdim")
             expect_ok("Dimension.derive", "anonymous-first", lambda: Dimension.derive(anon, n),
                       lambda dd: None if (Dimension._by_name.get(n) is anon and anon.name == n and Dimension.named(n) is anon) else f"Dimension.named({n!r}) / name not bound")
+            my_dims.append(anon)
+            if rng.random() < 0.5:
+                # the declaration is stated again with a symbol (the first one had none of its own): name and object stay,
+                # the symbol is the one declared now
+                s2 = fresh("zqds")
+                expect_ok("Dimension.derive", "same-name-again-with-a-symbol", lambda: Dimension.derive(anon, n, s2),
+                          lambda dd: None if (Dimension._by_name.get(n) is anon and anon.name == n and anon.symbol == s2) else
+                          f"after Dimension.derive(d, {n!r}, {s2!r}) the dimension reports name {anon.name!r} and symbol {anon.symbol!r}")
+        elif r < 0.575 and my_dims:
+            # a dimension of the program's own that already has a name is derived under a second one
+            d0 = rng.choice(my_dims)
+            old_name, n2 = d0.name, fresh("zqdim2")
+            try:
+                Dimension.derive(d0, n2, fresh("zqds"))
+            except ValueError:
+                count("successful_calls/Dimension.derive/second-name-refused")
+                if Dimension._by_name.get(n2) is not None or d0.name != old_name:
+                    violation("C19:failed-definition-changed-registry:Dimension.derive", f"Dimension.derive refused a second name {n2!r} for {old_name!r} but left traces")
+            else:
+                count("successful_calls/Dimension.derive/second-name")
+                count("definition_calls_succeeded")
+                if Dimension._by_name.get(n2) is not d0 or d0.name != n2:
+                    violation("C19:declared-name-not-bound:Dimension.derive:second-name", f"Dimension.derive(d, {n2!r}) returned normally for the dimension named {old_name!r}, "
+                              f"but Dimension.named({n2!r}) is {Dimension._by_name.get(n2)!r} and the dimension reports {d0.name!r}")
+                elif Dimension._by_name.get(old_name) is d0:
+                    violation("C19:dimension-derived-under-a-second-name-keeps-the-first-registered-but-no-longer-reports-it",
+                              f"after Dimension.derive(d, {n2!r}) on the dimension declared as {old_name!r}: Dimension.named({old_name!r}) still returns it, but it reports only {d0.name!r}")
         elif r < 0.62:
             k = rng.randint(10, 14)
             exps = tuple(list((rng.choice(dims) ** k).exponents))
